@@ -21,6 +21,9 @@ COMPILERS = {"rel": "g++", "asan": "clang++", "tsan": "clang++"}
 # property table. engine "rc": a rapidcheck executable built in the `rel` flavour.
 # quick/thorough: (multiplier on each sub-check's base case count, number of parallel seeds)
 PROPS = {
+    "C07": dict(engine="rc", exe="c07", quick=(1, 6), thorough=(20, 16),
+                assumptions=["slab/fault shortcuts are switched off through the GWB_VERIF hook (infinite bounding box and length cut-off) at parse time; both worlds are built from the same text in one process",
+                             "the nearest-triangle search is compared with a scan of the triangles the Surface object itself exposes; the triangulation as such is C11's subject"]),
     "C06": dict(engine="rc", exe="c06", quick=(1, 6), thorough=(20, 16),
                 assumptions=["cartesian worlds; the dip point is placed 5e7 m from the trench; feet within 0.1% of a trench end, within 1 mm of a segment end, or with two segments tying within 1 m are skipped (the statement fixes no rule there)",
                              "tolerance 1 mm + 1e-9 x coordinate scale on both distances"]),
